@@ -147,6 +147,19 @@ CHECKS["C10"] = {
     ],
 }
 
+CHECKS["C15"] = {
+    "harness": "c15",
+    "level": "fault_enumeration",
+    "floor": {"quick": 300, "thorough": 1000},
+    "timeout": {"quick": 2400, "thorough": 14400},
+    "exhaustive": False,
+    "assumptions": [
+        "reference fields are located through hook H3 on the raw-saved file; every fault is one 4-byte overwrite of such a field",
+        "a child exceeding 20 s (normal cases take ~30 ms) counts as a hang only if it reproduces in three replays",
+        "for synthesised (internally inconsistent) files only failures that the unfaulted file does not show are attributed to the fault",
+    ],
+}
+
 for _pid, _floor in (("C18", 1000), ("C19", 1000), ("C20", 1000)):
     CHECKS[_pid] = {
         "harness": _pid.lower(),
